@@ -49,6 +49,25 @@ theorem ordered_symm {a b : Access} (h : ordered a b) : ordered b a := by
   · exact Or.inr (Or.inr (Or.inr (Or.inr (Or.inr h))))
   · exact Or.inr (Or.inr (Or.inr (Or.inr (Or.inl h))))
 
+/-- The cheaper check (live writes against everything) decides the same discipline. -/
+theorem raceFreeW_iff (tbl : List Access) : raceFreeW tbl = true ↔ raceFree tbl := by
+  constructor
+  · intro h a ha b hb hc
+    simp only [raceFreeW, List.all_eq_true, List.mem_filter, Bool.and_eq_true, beq_iff_eq, and_imp] at h
+    cases hpa : a.phase with
+    | init => exact Or.inl hpa
+    | live =>
+      cases hpb : b.phase with
+      | init => exact Or.inr (Or.inl hpb)
+      | live =>
+        rcases hc.2 with hk | hk
+        · exact (pairOkB_iff a b).mp (h a ha hk hpa b hb) hc
+        · exact ordered_symm ((pairOkB_iff b a).mp (h b hb hk hpb a ha) (conflict_symm hc))
+  · intro h
+    simp only [raceFreeW, List.all_eq_true, List.mem_filter, Bool.and_eq_true, beq_iff_eq, and_imp]
+    intro a ha _ _ b hb
+    exact (pairOkB_iff a b).mpr (h a ha b hb)
+
 /-- Removing rows (or reordering, or duplicating) cannot break the discipline. -/
 theorem raceFree_of_subset {t₁ t₂ : List Access} (hsub : ∀ a ∈ t₁, a ∈ t₂) (h : raceFree t₂) :
     raceFree t₁ :=
